@@ -233,9 +233,37 @@ class Extractor:
             for key in ordered:
                 meta = self.extract_fn(key)
                 parts.append(meta.lean_text + "\n")
+            if pyname in cfg.LISTENERS:
+                parts.append(self.emit_listener_glue(pyname, keys))
             parts.append(f"end {ns}")
             out[lean_mod] = "\n".join(parts) + "\n"
         return out
+
+    def emit_listener_glue(self, pyname, keys) -> str:
+        """dispatch table of the ANTLR listener (rule name -> overridden `enter*` method), generated
+        from the class's method names, plus the composition `walk; to_graph` of `graph_from_tucan`."""
+        cls = cfg.LISTENERS[pyname]
+        mod = self.modules[pyname]
+        cdef = mod.classes[cls]
+        lines = [f"-- listener dispatch generated from the method names of class {cls}",
+                 f"def {cls}.dispatchEnter (env : DepEnv) (self : {cls}) (ctx : PCtx) : M {cls} :=",
+                 "  match ctx.self.rule with"]
+        for sub in cdef.body:
+            if isinstance(sub, ast.FunctionDef) and sub.name.startswith("exit"):
+                raise Unsupported("listener overrides an exit* method")
+            if isinstance(sub, ast.FunctionDef) and sub.name.startswith("enter"):
+                rule = sub.name[5].lower() + sub.name[6:]
+                if (pyname, f"{cls}.{sub.name}") not in self.target_set or self.metas[(pyname, f"{cls}.{sub.name}")].error:
+                    raise Unsupported(f"listener method {sub.name} is not extracted")
+                lines.append(f"  | \"{rule}\" => {cls}.{sub.name} env self ctx")
+        lines.append("  | _ => pure self")
+        lines.append("")
+        lines.append(f"-- `_walk_tree` + `to_graph`: the hand-written part of graph_from_tucan after ANTLR has produced the tree")
+        lines.append(f"def graph_from_tree (env : DepEnv) (tree : PTree) : M Graph := do")
+        lines.append(f"  let listener ← PTree.walk ({cls}.dispatchEnter env) Option.none tree ({{}} : {cls})")
+        lines.append(f"  let r ← {cls}.to_graph env listener")
+        lines.append("  return r.1" if self.mut.get((pyname, f"{cls}.to_graph")) else "  return r")
+        return "\n".join(lines) + "\n"
 
     def order_in_module(self, keys):
         keyset = set(keys)
@@ -423,6 +451,9 @@ class FnTranslator:
         self.globals_written: set[str] = set()
         self.external_state: set[str] = set()
         self.loop_alias: dict[str, tuple[str, str]] = {}  # value var -> (container, key var)
+        self.alias: dict[str, ast.AST] = {}  # local name -> subscript expression it aliases (mutable element)
+        self._writing_back = False
+        self.expected: str | None = None
         self.in_lambda = 0
         for a in fn.args.args:
             if a.annotation is not None and ast.unparse(a.annotation) == "nx.Graph":
@@ -560,6 +591,8 @@ class FnTranslator:
         if isinstance(e, ast.IfExp):
             c = self.cond(e.test)
             a, b = self.expr(e.body), self.expr(e.orelse)
+            if self.hints.get("ifexp_toVal") and not isinstance(e.body, ast.JoinedStr):
+                a, b = f"(toVal {self.atom(a)})", f"(toVal {self.atom(b)})"
             if "←" in a or "←" in b:
                 return f"(← (if {c} then (do pure {self.atom(a)}) else (do pure {self.atom(b)})))"
             return f"(if {c} then {a} else {b})"
@@ -600,6 +633,10 @@ class FnTranslator:
             return f"pyStr {inner}"
         if spec == ".6f":
             return f"env.fmt6 (toVal {inner})"
+        m = re.fullmatch(r"(.)([<>])(\d+)", spec)
+        if m:
+            fn = "padRight" if m.group(2) == "<" else "padLeft"
+            return f"{fn} (pyStr {inner}) {m.group(3)} {lean_char(m.group(1))}"
         raise Unsupported(f"format spec {spec!r}")
 
     def dict_literal(self, e: ast.Dict) -> str:
@@ -607,7 +644,7 @@ class FnTranslator:
             ty = self.hints.get("dict_literal_type")
             return f"(Dict.empty : {ty})" if ty else "Dict.empty"
         pairs = []
-        attrs_like = all(self.is_attr_key(k) for k in e.keys)
+        attrs_like = all(self.is_attr_key(k) for k in e.keys) and (self.expected in (None, "Attrs"))
         for k, v in zip(e.keys, e.values):
             vs = self.e(v)
             if attrs_like:
@@ -791,9 +828,9 @@ class FnTranslator:
         if e.attr in ("key", "default_value") :
             return f"{self.e(v)}.{mangle(e.attr)}"
         if e.attr == "children":
-            return f"(PTree.children {self.e(v)})"
+            return f"(PCtx.children {self.e(v)})"
         if e.attr == "parentCtx":
-            return f"(PTree.parentCtx {self.e(v)})"
+            return f"(← PCtx.parentCtx {self.e(v)})"
         if ast.unparse(e) == "tucan.__version__":
             self.external_state.add("tucan.__version__")
             return "env.version"
@@ -896,6 +933,10 @@ class FnTranslator:
             if target.id in self.loop_alias:
                 cont, keyv = self.loop_alias[target.id]
                 out.append(f"{mangle(cont)} ← setItem {mangle(cont)} {mangle(keyv)} {mangle(target.id)}")
+            elif target.id in self.alias and not self._writing_back:
+                self._writing_back = True
+                out += self.assign_to(self.alias[target.id], mangle(target.id))
+                self._writing_back = False
             return out
         if isinstance(target, ast.Attribute) and isinstance(target.value, ast.Name) and target.value.id == "self":
             return [f"self := {{ self with {mangle(target.attr)} := {value} }}"]
@@ -917,7 +958,15 @@ class FnTranslator:
             if "key" in kw:
                 if rev:
                     raise Unsupported("sorted key+reverse")
-                return f"(sortedKey {self.e(kw['key'])} {self.atom(self.as_list(inner))})"
+                k = kw["key"]
+                if isinstance(k, ast.Lambda):
+                    old = set(self.declared)
+                    self.declared |= {x.arg for x in k.args.args}
+                    body = self.expr(k.body)
+                    self.declared = old
+                    args = " ".join(mangle(x.arg) for x in k.args.args)
+                    return f"(← sortedByKeyM {self.atom(self.as_list(inner))} (fun {args} => do pure {self.atom(body)}))"
+                return f"(sortedKey {self.e(k)} {self.atom(self.as_list(inner))})"
             return f"({'sortedRev' if rev else 'sorted'} {self.atom(self.as_list(inner))})"
         if name in ("tuple", "list"):
             if not a:
@@ -1082,12 +1131,22 @@ class FnTranslator:
             return f"(env.canonicalPermutation {self.e(recv)} {self.e(kw['color'])})"
         if attr == "permute_vertices":
             return f"(env.permuteVertices {self.e(recv)} {self.e(a[0])})"
+        if attr == "strftime":
+            self.external_state.add("datetime.now()")
+            return "env.nowStamp"
+        if full == "nx.kamada_kawai_layout":
+            self.external_state.add("nx.kamada_kawai_layout")
+            return f"(env.layout {self.e(a[0])})"
         # --- dict / list / str methods (pure)
         r = self.e(recv)
         if attr == "get":
             if len(a) == 1:
                 return f"(Dict.get? {r} {self.e(a[0])})"
-            return f"(Dict.getD {r} {self.e(a[0])} (toVal {self.e(a[1])}))" if self.hints.get("getD_toVal", True) else f"(Dict.getD {r} {self.e(a[0])} {self.e(a[1])})"
+            if isinstance(a[1], ast.Constant) and a[1].value is not None:
+                return f"(Dict.getD {r} {self.e(a[0])} (toVal {self.e(a[1])}))"
+            if isinstance(a[1], ast.Name) and self.hints.get("tuple_is_val"):
+                return f"(Dict.getD {r} {self.e(a[0])} (toVal {self.e(a[1])}))"
+            return f"(Dict.getD {r} {self.e(a[0])} {self.e(a[1])})"
         if attr in ("items", "values", "keys"):
             return self.iter_expr(e)
         if attr == "copy":
@@ -1115,15 +1174,15 @@ class FnTranslator:
         if attr == "replace":
             return f"(replaceAll {r} {self.e(a[0])} {self.e(a[1])})"
         if attr == "getText":
-            return f"(PTree.getText {r})"
+            return f"(PCtx.getText {r})"
         if attr == "getChildCount":
-            return f"(PTree.getChildCount {r})"
+            return f"(PCtx.getChildCount {r})"
         if attr == "getChild":
-            return f"(← PTree.getChild {r} {self.e(a[0])})"
+            return f"(← PCtx.getChild {r} {self.e(a[0])})"
         if attr in cfg.CTX_ACCESSORS:
             if a:
-                return f"(← PTree.childRuleAt {r} \"{attr}\" {self.e(a[0])})"
-            return f"(← PTree.childRule {r} \"{attr}\")"
+                return f"(← PCtx.childRuleAt {r} \"{attr}\" {self.e(a[0])})"
+            return f"(← PCtx.childRule {r} \"{attr}\")"
         # --- mutating methods in expression position
         if attr == "pop":
             return self.pop_expr(recv, a)
@@ -1162,7 +1221,14 @@ class FnTranslator:
     # ---- statements
     def block(self, body, ind) -> list[str]:
         out = []
-        for s in body:
+        for i, s in enumerate(body):
+            if isinstance(s, ast.If):
+                # names first assigned inside the branches and read afterwards: declare before the `if`
+                later = loaded_names(body[i + 1:])
+                for n in sorted(assigned_names([s]) & later - self.declared):
+                    ty = self.hints.get("types", {}).get(n)
+                    out.append("  " * ind + (f"let mut {mangle(n)} : {ty} := default" if ty else f"let mut {mangle(n)} := default"))
+                    self.declared.add(n)
             out += self.stmt(s, ind)
         if not out:
             out = ["  " * ind + "pure ()"]
@@ -1217,6 +1283,17 @@ class FnTranslator:
                 val = f"(optGet {self.e(v.func.value)})"
                 return self.flush(self.assign_to(t, val), ind)
             ty = self.hints.get("types", {}).get(t.id) if isinstance(t, ast.Name) else None
+            if isinstance(t, ast.Name) and isinstance(v, ast.Subscript) and not isinstance(v.slice, ast.Slice) \
+                    and self.var_mutated_in(t.id, self.fn.body, inplace_only=True) and not self.graph_nodes_subscript_q(v):
+                val = self.expr(v)
+                lines = self.assign_to(t, val)
+                self.alias[t.id] = v
+                return self.flush(lines, ind)
+            if isinstance(t, ast.Name) and isinstance(v, ast.Call) and isinstance(v.func, ast.Attribute) and v.func.attr == "setdefault":
+                val = self.expr(v)
+                lines = self.assign_to(t, val)
+                self.alias[t.id] = ast.Subscript(value=v.func.value, slice=v.args[0], ctx=ast.Load())
+                return self.flush(lines, ind)
             if isinstance(t, ast.Tuple):
                 val = self.expr(v)
                 names = self.pattern_names(t)
@@ -1232,7 +1309,9 @@ class FnTranslator:
                 lines = [f"let {self.pattern(t)} := {val}"]
                 lines += [f"let mut {mangle(n)} := {mangle(n)}" for n in sorted(names)]
                 return self.flush(lines, ind)
+            self.expected = ty
             val = self.expr(v)
+            self.expected = None
             if ty:
                 val = f"({val} : {ty})"
             return self.flush(self.assign_to(t, val), ind)
@@ -1285,6 +1364,20 @@ class FnTranslator:
             return [f"{p}break"]
         if isinstance(s, ast.Continue):
             return [f"{p}continue"]
+        if isinstance(s, ast.Try):
+            if s.finalbody or s.orelse:
+                raise Unsupported("try with else/finally")
+            out = [f"{p}try"] + self.block(s.body, ind + 1)
+            out.append(f"{p}catch exc_ =>")
+            out.append(f"{p}  match exc_ with")
+            for h in s.handlers:
+                if not isinstance(h.type, ast.Name):
+                    raise Unsupported("except clause form")
+                err = cfg.BUILTIN_EXCEPTIONS.get(h.type.id, f'Err.custom "{h.type.id}"')
+                out.append(f"{p}  | {err.replace('Err.', '.')} => do")
+                out += self.block(h.body, ind + 3)
+            out.append(f"{p}  | e_ => throw e_")
+            return out
         if isinstance(s, ast.With):
             raise Unsupported("with statement")
         raise Unsupported(type(s).__name__ + ": " + ast.unparse(s)[:80])
@@ -1312,6 +1405,8 @@ class FnTranslator:
         v = None
         if value is not None and not (isinstance(value, ast.Constant) and value.value is None and self.returns_none):
             v = self.expr(value)
+            if self.ret_type == "Val":
+                v = f"(toVal {self.atom(v)})"
         return f"return {self.return_value(v)}"
 
     def call_stmt(self, c: ast.Call) -> list[str]:
@@ -1429,12 +1524,16 @@ class FnTranslator:
         self.declared = saved_decl | (self.declared - names)
         return out
 
-    def var_mutated_in(self, name, body) -> bool:
+    def graph_nodes_subscript_q(self, e) -> bool:
+        v = e.value
+        return (isinstance(v, ast.Attribute) and v.attr == "nodes" and self.is_graph(v.value)) or (isinstance(v, ast.Name) and v.id in self.views)
+
+    def var_mutated_in(self, name, body, inplace_only: bool = False) -> bool:
         for st in body:
             for n in ast.walk(st):
-                if isinstance(n, ast.AugAssign) and isinstance(n.target, ast.Name) and n.target.id == name:
+                if isinstance(n, ast.AugAssign) and isinstance(n.target, ast.Name) and n.target.id == name and (not inplace_only or isinstance(n.op, ast.BitOr)):
                     return True
-                if isinstance(n, ast.Assign) and any(isinstance(t, ast.Name) and t.id == name for t in n.targets):
+                if not inplace_only and isinstance(n, ast.Assign) and any(isinstance(t, ast.Name) and t.id == name for t in n.targets):
                     return True
                 if isinstance(n, ast.Assign) and any(isinstance(t, ast.Subscript) and root_name(t) == name for t in n.targets):
                     return True
@@ -1493,10 +1592,13 @@ class FnTranslator:
             pre.append("  let mut rng := rng")
         if self.is_gen:
             pre.append(f"  let mut out : {self.hints.get('yield_type', 'List Graph')} := []")
+        for name, ty in self.hints.get("predeclare", {}).items():
+            pre.append(f"  let mut {mangle(name)} : {ty} := default")
+            self.declared.add(name)
         # rewrite break statements: python `break` in while => done flag; handled by patching body text
+        self.ret_type = self.hints.get("returns") or (cfg.lean_type(ast.unparse(fn.returns), None) if fn.returns else None)
         body = self.block(fn.body, 1)
-        last = body[-1].strip() if body else ""
-        if not (last.startswith("return") or last.startswith("throw")):
+        if not ends_with_exit(fn.body):
             body.append("  " + self.return_stmt(None))
         ret = self.hints.get("returns")
         if not ret:
@@ -1528,6 +1630,36 @@ class FnTranslator:
         text = src + hdr + "\n" + "\n".join(pre + body)
         text = text.replace("RNGSEED", "()")
         return text
+
+
+def ends_with_exit(stmts) -> bool:
+    if not stmts:
+        return False
+    s = stmts[-1]
+    if isinstance(s, (ast.Return, ast.Raise)):
+        return True
+    if isinstance(s, ast.If):
+        return bool(s.orelse) and ends_with_exit(s.body) and ends_with_exit(s.orelse)
+    if isinstance(s, ast.Try):
+        return ends_with_exit(s.body) and all(ends_with_exit(h.body) for h in s.handlers)
+    return False
+
+
+def assigned_names(stmts) -> set[str]:
+    out = set()
+    for st in stmts:
+        for n in ast.walk(st):
+            if isinstance(n, (ast.Assign, ast.AnnAssign, ast.AugAssign)):
+                tgts = n.targets if isinstance(n, ast.Assign) else [n.target]
+                for t in tgts:
+                    for x in ast.walk(t):
+                        if isinstance(x, ast.Name) and isinstance(x.ctx, ast.Store):
+                            out.add(x.id)
+    return out
+
+
+def loaded_names(stmts) -> set[str]:
+    return {n.id for st in stmts for n in ast.walk(st) if isinstance(n, ast.Name) and isinstance(n.ctx, ast.Load)}
 
 
 def lean_char(c: str) -> str:
